@@ -13,7 +13,7 @@ RULE = ('one case = a settings dictionary for init drawn from the documented pri
         '0..3 add-key invocations (independent / shared / clone, KDF parameters incl. invalid ones). Oracle: a rejected init or '
         'add-key leaves the store journal empty; an accepted one lets a FRESH simulated process (only the store and the emitted key '
         'survive) unlock, snapshot one small file and restore it byte-identically; every produced key unlocks with its own password '
-        'and with no other produced password. distinct_nontrivial = distinct (settings, outcome) event-log digests')
+        'and with no other produced password; in a quarter of the cases everything goes through the per-user cache directory, with which a second repository of the other kind (unencrypted / encrypted) was created right after ours. distinct_nontrivial = distinct (settings, outcome) event-log digests')
 COMPONENTS = {
     'real': ['replicat.repository.Repository (init, add_key, unlock, snapshot, restore)', 'replicat.utils.adapters (from_config, adapter constructors)'],
     'stub': ['OS thread scheduling', 'clocks', 'os.urandom', 'object store (SimStore)'],
